@@ -65,41 +65,69 @@ def run(tier):
     # ------------------------------------------------------------------ (b) enabled and defined
     bf = c.bf(DYN + 'select_tx_channel')
     sites = txchannel_sites(bf)
-    if len(sites) != 2:
+    if not 1 <= len(sites) <= 2:
         raise CheckError('anchor: dynamic select_tx_channel builds TxChannel %d times' % len(sites))
     n_join = n_data = 0
+    framep = param_by_name(bf.body, 'frame')
+    fv = rules.variants_of(prog, 'mac::Frame')
+
+    def num_join(t):
+        return term_contains(t, lambda y: isinstance(y, tuple) and y[0] == 'cdef' and 'NUM_JOIN_CHANNELS' in str(y))
+
+    def some_payload(t):
+        t = peel(t)
+        return peel(t[1][1]) if isinstance(t, tuple) and len(t) == 3 and t[0] == 'field' and t[2] == '0' and t[1][0] == 'as' and t[1][2] == 'Some' else None
     for bb, si, s, fl in sites:
         f = fl.get('frequency')
-        ch = peel(f[2][0]) if is_call(f, 'Channel::ul_frequency') else None
-        conds = path_conditions(bf, bb)
-        if ch is not None and is_call(ch, 'Option::unwrap'):
-            # join: channels[index].unwrap(), index left the loop `while index >= NUM_JOIN_CHANNELS`
-            n_join += 1
-            slot = peel(ch[2][0])
-            idx = slot[2] if slot[0] == 'index' else None
-            idx_l = peel(idx[2]) if idx is not None and idx[0] == 'cast' else idx
-            okj = slot[0] == 'index' and field_path(slot[1]) == (('param', 1), ['channels'])
-            g = [x for x in conds if x[0][0] in ('Ge', 'Lt') and term_contains(x[0], lambda y: isinstance(y, tuple) and y[0] == 'cdef' and 'NUM_JOIN_CHANNELS' in str(y))]
-            okg = False
-            for x in g:
-                a, b_ = peel(x[0][1]), peel(x[0][2])
-                if x[0][0] == 'Ge' and a == idx_l and cond_false(x):
-                    okg = True
-                if x[0][0] == 'Lt' and a == idx_l and cond_true(x):
-                    okg = True
-            res.require(okj and okg, 'C09:dyn::select_tx_channel:join-channel', 'the join channel is not channels[index] with index < NUM_JOIN_CHANNELS on the exit edge: %s' % term_str(slot),
-                        short_site(bf, bb, si), 'DOM(index < NUM_JOIN_CHANNELS => use)+SAME-VALUE(index)', instance='dynamic join: channels[index], index < NUM_JOIN_CHANNELS')
-        else:
-            n_data += 1
-            # data: ((channels[X]) as Some).0 under is_enabled(X).unwrap() and channels[X] is Some
-            okd = ch is not None and ch[0] == 'field' and ch[1][0] == 'as' and ch[1][2] == 'Some' and peel(ch[1][1])[0] == 'index'
-            x_idx = peel(ch[1][1])[2] if okd else None
-            en = [x for x in conds if cond_true(x) and is_call(x[0], 'Result::unwrap') and is_call(x[0][2][0], 'ChannelMask::is_enabled')
-                  and field_path(x[0][2][0][2][0]) == (('param', 1), ['channel_mask']) and peel(x[0][2][0][2][1]) == x_idx]
-            de = [x for x in conds if x[0][0] == 'discr' and peel(x[0][1]) == peel(ch[1][1]) and x[1] in ((1,), ('not', (0,)))] if okd else []
-            res.require(okd and len(en) >= 1 and len(de) >= 1, 'C09:dyn::select_tx_channel:data-channel',
-                        'the data channel is not read from the index whose mask bit and plan slot were tested on the exit edge: %s' % term_str(f)[:120], short_site(bf, bb, si),
-                        'DOM(mask bit and Some slot => use)+SAME-VALUE(index)', instance='dynamic data: channel X used only if mask.is_enabled(X) and channels[X] is Some')
+        ch0 = peel(f[2][0]) if is_call(f, 'Channel::ul_frequency') else None
+        # the channel used: one alternative per way of choosing it (two constructions, or one construction fed by a match)
+        alts = rules.value_cases(bf, ch0, path_conditions(bf, bb)) if ch0 is not None else []
+        res.require(bool(alts), 'C09:dyn::select_tx_channel:frequency', 'TxChannel.frequency is not channel.ul_frequency()', short_site(bf, bb, si), 'PROVENANCE(frequency)',
+                    instance='dynamic: frequency = ul_frequency() of the chosen channel')
+        for ch, conds in alts:
+            ch = peel(ch)
+            arm = [x for x in conds if x[0][0] == 'discr' and peel(x[0][1]) == ('param', framep)]
+            is_join = any(x[1] == (fv.get('Join'),) or x[1] == ('not', (fv.get('Data'),)) for x in arm) if arm else (is_call(ch, 'Option::unwrap') or not has_call(conds and ('x',) + tuple(x[0] for x in conds) or ('x',), 'is_enabled'))
+            if is_join:
+                n_join += 1
+                okj = okg = False
+                slot = None
+                if is_call(ch, 'Option::unwrap'):
+                    # channels[index].unwrap(), index left the loop `while index >= NUM_JOIN_CHANNELS`
+                    slot = peel(ch[2][0])
+                    idx = slot[2] if slot[0] == 'index' else None
+                    okj = slot[0] == 'index' and field_path(slot[1]) == (('param', 1), ['channels'])
+                    okg = idx is not None and any(num_join(b_) and rules.implies_order(conds, '<', idx, b_) for x in conds if isinstance(x[0], tuple) and len(x[0]) == 3 and x[0][0] in ('Ge', 'Lt', 'Gt', 'Le')
+                                                  for b_ in (x[0][1], x[0][2]))
+                else:
+                    # a slot read through a bounded view: view.get(index) is Some(Some(channel)) with view = channels[..NUM_JOIN_CHANNELS]
+                    inner = some_payload(ch)
+                    g_ = some_payload(inner) if inner is not None else None
+                    slot = g_
+                    if g_ is not None and is_call(g_, '::get') and len(g_[2]) == 2:
+                        rs = layout.resolve_slice(g_[2][0], lambda t: field_path(t) == (('param', 1), ['channels']))
+                        okj = rs is not None and rs[0] == ('const', 0)
+                        if okj and rs[1] is not None:
+                            lin_, k_ = rules.linear(rs[1])
+                            okg = k_ == 0 and len(lin_) == 1 and list(lin_.values()) == [1] and num_join(list(lin_)[0])
+                res.require(okj and okg, 'C09:dyn::select_tx_channel:join-channel', 'the join channel is not channels[index] with index < NUM_JOIN_CHANNELS on the exit edge: %s' % term_str(slot if slot is not None else ch)[:160],
+                            short_site(bf, bb, si), 'DOM(index < NUM_JOIN_CHANNELS => use)+SAME-VALUE(index)', instance='dynamic join: channels[index], index < NUM_JOIN_CHANNELS')
+            else:
+                n_data += 1
+                # data: ((channels[X]) as Some).0 under is_enabled(X).unwrap() and channels[X] is Some
+                src = some_payload(ch)
+                okd = src is not None and src[0] == 'index' and field_path(src[1]) == (('param', 1), ['channels'])
+                x_idx = src[2] if okd else None
+                en = [x for x in conds if cond_true(x) and is_call(x[0], 'Result::unwrap') and is_call(x[0][2][0], 'ChannelMask::is_enabled')
+                      and field_path(x[0][2][0][2][0]) == (('param', 1), ['channel_mask']) and peel(x[0][2][0][2][1]) == x_idx]
+                de = [x for x in conds if (lambda k_: k_ is not None and k_[1] and k_[0] == src)(rules.option_known(x))] if okd else []
+                res.require(okd and len(en) >= 1 and len(de) >= 1, 'C09:dyn::select_tx_channel:data-channel',
+                            'the data channel is not read from the index whose mask bit and plan slot were tested on the exit edge: %s' % term_str(ch)[:120], short_site(bf, bb, si),
+                            'DOM(mask bit and Some slot => use)+SAME-VALUE(index)', instance='dynamic data: channel X used only if mask.is_enabled(X) and channels[X] is Some')
+        # rx1 frequency from the same channel
+        r1 = fl.get('rx1_frequency')
+        res.require(is_call(r1, 'Channel::rx1_frequency') and peel(r1[2][0]) == ch0, 'C09:dyn::select_tx_channel:rx1-frequency', 'rx1_frequency is not taken from the channel transmitted on', short_site(bf, bb, si),
+                    'SAME-VALUE(channel)', instance='dynamic: rx1_frequency from the same channel as frequency')
         # data rate is the region's entry for the rate passed in, returned as dr
         drp = param_by_name(bf.body, 'datarate')
         d = fl.get('datarate')
